@@ -223,10 +223,10 @@ def run(ck):
         return ck.finish(level="proof")
 
     gen = os.path.join(ck.work, "workloads.txt")
-    vlib.sh([vlib.harness_bin("c04"), "gen", str(3 if quick else 12), gen])
+    vlib.sh([vlib.harness_bin("c04"), "gen", str(3 if quick else 6), gen])
     batches = []
     if os.path.exists(CORPUS):
-        batches.append(run_workloads(ck, CORPUS, "corpus", not quick))
+        batches.append(run_workloads(ck, CORPUS, "corpus", False))   # corpus: sampled prefixes in both tiers
     batches.append(run_workloads(ck, gen, "gen", not quick))
 
     mvi = {"compared": 0, "disagree": 0, "steps_compared": 0, "steps_disagree": 0}
